@@ -66,6 +66,9 @@ func aliasCheck(s *cases.Set, pk *pkg, api string, up bool, orig, buf []byte, ba
 		buf[i] = ^buf[i]
 	}
 	call("print decoded", func() error { after = cmdsTerm(pk, back); return nil })
+	for i := range buf {
+		buf[i] = ^buf[i] // restore, so that what is printed later is what was decoded
+	}
 	if before != after {
 		s.Fail(cases.GoFail{Key: short(fmt.Sprintf("decoded-command-aliases-input:%s:%x", pk.name, orig)),
 			What:   "the command(s) decoded by " + pk.name + api + " share memory with the input buffer: they change when the caller reuses the buffer",
